@@ -282,3 +282,40 @@ package schema
 //@   loop 0 invariant sameArray(errs, old(errs)) || isfresh(errs)
 //@   loop 1 invariant len(errs) >= old(len(errs)) && iff(len(errs) > old(len(errs)), absentIn(sn, sch_nchildren(sn)) || mandChoiceIn(sn, loopidx+1))
 //@   loop 1 invariant sameArray(errs, old(errs)) || isfresh(errs)
+
+// Choices: S is the set of names configured under the existing parent. A choice none of whose members is configured
+// is a violation iff it is mandatory; otherwise the cases that have a configured member are active, and in an active
+// case every member that is absent (and not itself inside a nested choice) must not be mandatory, and the nested
+// choices are checked in the same way.
+//@ define caseChildrenMissing(S, nd) = exists(i, 0, sch_nchildren(nd), !sel(S, node_name(sch_child(nd, i))) && !caseChoiceHolds(nd, sch_child(nd, i)) && mandAbsent(sch_child(nd, i)))
+//@ define choiceBad(S, ch) = is(ch, Choice) && ((oneOf(ch, S) && case_missing(S, ch)) || (!oneOf(ch, S) && sch_mandatory(ch)))
+//@ define caseBad(S, ca) = is(ca, Case) && oneOf(ca, S) && (caseChildrenMissing(S, ca) || choice_missing(S, ca))
+//@ axiom choiceMissingDef = forallsmt(S, "(Array String Bool)", forallof(n, Node, choice_missing(S, n) == exists(j, 0, sch_nchoices(n), choiceBad(S, sch_choice(n, j)))))
+//@ axiom caseMissingDef = forallsmt(S, "(Array String Bool)", forallof(n, Node, case_missing(S, n) == exists(j, 0, sch_nchoices(n), caseBad(S, sch_choice(n, j)))))
+//@ func hasCaseMandatoryChildren
+//@   uses deepMandDef
+//@   requires nd != nil
+//@   modifies elems(errs)
+//@   modifies elems(path)
+//@   ensures len(result) >= len(errs) && iff(len(result) > len(errs), caseChildrenMissing(keyset(cfg), nd))
+//@   ensures sameArray(result, errs) || isfresh(result)
+//@   loop 0 invariant len(errs) >= old(len(errs)) && (sameArray(errs, old(errs)) || isfresh(errs))
+//@   loop 0 invariant iff(len(errs) > old(len(errs)), exists(i, 0, loopidx+1, !sel(keyset(cfg), node_name(sch_child(nd, i))) && !caseChoiceHolds(nd, sch_child(nd, i)) && mandAbsent(sch_child(nd, i))))
+//@ func caseHasMandatory
+//@   uses caseMissingDef
+//@   requires nd != nil
+//@   modifies elems(errs)
+//@   modifies elems(path)
+//@   ensures len(result) >= len(errs) && iff(len(result) > len(errs), case_missing(keyset(cfg), nd))
+//@   ensures sameArray(result, errs) || isfresh(result)
+//@   loop 0 invariant len(errs) >= old(len(errs)) && (sameArray(errs, old(errs)) || isfresh(errs))
+//@   loop 0 invariant iff(len(errs) > old(len(errs)), exists(j, 0, loopidx+1, caseBad(keyset(cfg), sch_choice(nd, j))))
+//@ func choiceHasMandatory
+//@   uses choiceMissingDef
+//@   requires nd != nil
+//@   modifies elems(errs)
+//@   modifies elems(path)
+//@   ensures len(result) >= len(errs) && iff(len(result) > len(errs), choice_missing(keyset(cfg), nd))
+//@   ensures sameArray(result, errs) || isfresh(result)
+//@   loop 0 invariant len(errs) >= old(len(errs)) && (sameArray(errs, old(errs)) || isfresh(errs))
+//@   loop 0 invariant iff(len(errs) > old(len(errs)), exists(j, 0, loopidx+1, choiceBad(keyset(cfg), sch_choice(nd, j))))
